@@ -2,7 +2,7 @@
 # seedbatch.sh PROP:dir[:check1,check2] ...   -> /tmp/seedres/<PROP>-<n>.json (sequential)
 for spec in "$@"; do
   p=$(echo "$spec" | cut -d: -f1); d=$(echo "$spec" | cut -d: -f2); c=$(echo "$spec" | cut -d: -f3 | tr ',' ' ')
-  n=$(basename "$d"); case "$d" in /tmp/seed3-*) n="w3-$n";; /tmp/seed4-*) n="w4-$n";; /tmp/seed5-*) n="w5-$n";; /tmp/seed6-*) n="w6-$n";; /tmp/seed7-*) n="w7-$n";; /tmp/seed8-*) n="w8-$n";; /tmp/seed9-*) n="w9-$n";; esac
+  n=$(basename "$d"); case "$d" in /tmp/seed3-*) n="w3-$n";; /tmp/seed4-*) n="w4-$n";; /tmp/seed5-*) n="w5-$n";; /tmp/seed6-*) n="w6-$n";; /tmp/seed7-*) n="w7-$n";; /tmp/seed8-*) n="w8-$n";; /tmp/seed9-*) n="w9-$n";; /tmp/seed11-*) n="w11-$n";; esac
   python3 /verif/tools/seedeval.py "$p" "$d" $c > /tmp/seedres/$p-$n.json 2>/tmp/seedres/$p-$n.err
   echo "$p-$n done"
 done
